@@ -2,7 +2,7 @@
 google.protobuf on a schema covering every field kind.  Used only to find candidate defects, which are then confirmed by
 reading the code, turned into a static rule, and repaired or recorded.   usage: fuzz_triage.py [n] [seed]"""
 import sys, json, math, random, struct
-sys.path.insert(0, "/repo/src")
+sys.path.insert(0, __import__("os").environ.get("REPO_SRC", "/repo/src"))
 from dataclasses import dataclass
 from typing import Dict, Optional, List
 from datetime import datetime, timedelta, timezone
@@ -84,7 +84,7 @@ for vt in ALLV:
     if tn: f.type_name = tn
     msg.oneof_decl.add(name=f"_o_{vt}")
     f.oneof_index = len(msg.oneof_decl) - 1
-    fields.append((f"o_{vt}", Optional[py], betterproto.dataclass_field(n, bt, optional=True, group=f"_o_{vt}"), ("optional", vt)))
+    fields.append((f"o_{vt}", Optional[py], betterproto.dataclass_field(n, bt, optional=True), ("optional", vt)))
     # map value
     n = nxt()
     entry = msg.nested_type.add(name=f"Mv{vt.title()}Entry"); entry.options.map_entry = True
@@ -229,6 +229,39 @@ for _ in range(N):
             note("C01 parse(bytes(m)) != m", kw)
     except Exception as ex:
         note("C01 parse raises", kw, repr(ex))
+    try:
+        back = M().parse(data)
+        grp = betterproto.which_one_of(back, "grp")[0]
+        if (grp or None) != ref.WhichOneof("grp"):
+            note("C07 which_one_of differs from reference", kw, f"{grp!r} vs {ref.WhichOneof('grp')!r}")
+        if betterproto.which_one_of(m, "grp")[0] != grp:
+            note("C07 which_one_of changes over the wire", kw)
+        for name, _, _, (shape, vt) in fields:
+            if shape == "optional":
+                if ref.HasField(name) != (getattr(back, name) is not None):
+                    note("C06 optional presence differs from reference", kw, name)
+                if ref.HasField(name) != (name in kw):
+                    note("C06 reference does not see what was set", kw, name)
+            if shape in ("optional", "oneof", "wrap") or (shape == "singular" and vt in ("message", "timestamp", "duration")):
+                if betterproto.serialized_on_wire(back) and back.is_set(name) != ref.HasField(name):
+                    note("C06 is_set differs from reference HasField", kw, name)
+        import copy, pickle
+        for c in (copy.copy(back), copy.deepcopy(back), pickle.loads(pickle.dumps(back))):
+            if c != back or bytes(c) != data:
+                note("C14 copy/pickle not equal", kw)
+        import io
+        s_ = io.BytesIO()
+        for _i in range(3):
+            m.dump(s_, betterproto.SIZE_DELIMITED)
+        s_.write(b"tail")
+        s_.seek(0)
+        for _i in range(3):
+            if bytes(M().load(s_, betterproto.SIZE_DELIMITED)) != data:
+                note("C10 delimited stream read back differently", kw)
+        if s_.read() != b"tail":
+            note("C10 delimited reader consumed too much or too little", kw)
+    except Exception as ex:
+        note("presence/copy/stream checks raise", kw, repr(ex)[:200])
     try:
         rb = canon(ref)
         b2 = M().parse(rb)
